@@ -19,10 +19,10 @@ CLAIMED = {
         text="Proof, on the ordering core: inside the window of fewer than 2^31 publishes per client object the model of write_req::operator< is the lexicographic strict weak order "
              "(prioritized, serial), and the modelled re-send sort is a permutation, has no inversion and is stable, so PUBLISH requests leave in serial = initiation order "
              "(theorem publish_order_after_resend_partial); the cyclic behaviour across 2^31 is a proved counterexample and a recorded known finding (F9). "
-             "Tied to the code by differential runs of the real comparator and std::stable_sort over vector<write_req>.",
+             "Tied to the code by differential runs of the real comparator and std::stable_sort over vector<write_req>. End to end (composed_publish_order): after every prefix the QoS 1/2 PUBLISH packets of the current connection are in initiation order. Composed model (DESIGN.md S.8): the end-to-end statement is ALSO a Lean theorem about every event list accepted by a labelled transition system of the client above the stream (Model/Trace.lean / TraceIn.lean / TraceContent.lean); the real client is tied to it by trace inclusion: every H-client transcript is replayed through the compiled model on every run (lib/trace_check.py), a refusal is a broken correspondence.",
         note=COMMON_NOTE + "_partial: hypothesis `all serials < 2^31`. std::stable_sort is modelled by List.mergeSort (equal results for a strict weak order). "
              "That the sender hands requests to the queue/batches in this order (async_sender::do_write/resend, failed batch re-inserted in front) is checked at client level (H-client), not yet proved.",
-        technique="Lean 4 theorems on comparator + merge sort (core lemmas), differential correspondence with the real operator< and std::stable_sort",
+        technique="Lean 4 theorems on comparator + merge sort (core lemmas), differential correspondence with the real operator< and std::stable_sort + composed observer model with end-to-end theorems, tied by trace inclusion of real-client transcripts",
         design="§5 C06", engine="h_order"),
     "C16": dict(
         text="Proof, string level: for every byte string the model of validate_mqtt_utf8 / validate_topic_name / validate_topic_alias_name / is_valid_string_pair accepts exactly the "
@@ -38,19 +38,19 @@ CLAIMED = {
              "only properties the packet type allows, non-repeatable ones at most once, no trailing bytes) and for every well-formed packet value of CONNECT (incl. Will, credentials), PUBLISH, "
              "PUBACK/PUBREC/PUBREL/PUBCOMP, SUBSCRIBE, UNSUBSCRIBE, PINGREQ, DISCONNECT, AUTH: Spec.decode (Enc.encode p) = some p; and for all packet values the declared Remaining Length "
              "equals the encoded body length (byte_size/encode agreement per combinator). The encoder model is tied to the code byte for byte on generated packets built from the library's own types; "
-             "the real bytes are also decoded by an independent Python decoder and compared with the supplied values. Property table and per-packet property lists are translated from the headers on every run.",
+             "the real bytes are also decoded by an independent Python decoder and compared with the supplied values. Property table and per-packet property lists are translated from the headers on every run. End to end (composed_request_says_what_was_asked): every PUBLISH the real client writes says what its async_publish call said; every packet it writes is decoded by the independent decoder. Composed model (DESIGN.md S.8): the end-to-end statement is ALSO a Lean theorem about every event list accepted by a labelled transition system of the client above the stream (Model/Trace.lean / TraceIn.lean / TraceContent.lean); the real client is tied to it by trace inclusion: every H-client transcript is replayed through the compiled model on every run (lib/trace_check.py), a refusal is a broken correspondence.",
         note=COMMON_NOTE + "WF p is an explicit predicate (field ranges, string lengths <= 65535, body <= 268435455, allowed/non-repeated properties). That a request accepted by the API yields WF "
              "packets (validated_is_WF) is checked at client level, not proved here. AUTH exchange content (authenticator data) is opaque.",
-        technique="Lean 4 round-trip theorems against a strict spec decoder + translators (property table) + byte-exact differential correspondence with the real encoders under ASan",
+        technique="Lean 4 round-trip theorems against a strict spec decoder + translators (property table) + byte-exact differential correspondence with the real encoders under ASan + composed observer model with end-to-end theorems, tied by trace inclusion of real-client transcripts",
         design="§5 C17", engine="h_codec"),
     "C08": dict(
         text="Refinement proof: the interval allocator model refines a set of free identifiers (allocate = lowest free id, non-zero, removed; free = insert; "
              "representation invariant kept), lifted by induction over every legal history of allocations and releases of any length (uniqueness among "
              "outstanding ids, never 0, reuse only after release, overrun iff all 65535 in use). Tied to the code by lock-step differential runs of the real "
-             "packet_id_allocator (returned id and private interval vector after every operation) incl. full exhaustion.",
+             "packet_id_allocator (returned id and private interval vector after every operation) incl. full exhaustion. End to end (composed_outstanding_identifiers_distinct, composed_identifier_stable_nonzero): two outstanding operations never share an identifier, an operation keeps its identifier, never 0. Composed model (DESIGN.md S.8): the end-to-end statement is ALSO a Lean theorem about every event list accepted by a labelled transition system of the client above the stream (Model/Trace.lean / TraceIn.lean / TraceContent.lean); the real client is tied to it by trace inclusion: every H-client transcript is replayed through the compiled model on every run (lib/trace_check.py), a refusal is a broken correspondence.",
         note=COMMON_NOTE + "The model is a hand-written port of allocate()/free() (reversed vector); agreement with the code is observed on generated scripts only. "
              "That every client operation releases its id exactly once on every completion path is checked at client level (H-client wire monitor), not proved here.",
-        technique="Lean 4 refinement + induction over histories; lock-step differential correspondence with the real allocator under ASan",
+        technique="Lean 4 refinement + induction over histories; lock-step differential correspondence with the real allocator under ASan + composed observer model with end-to-end theorems, tied by trace inclusion of real-client transcripts",
         design="§5 C08", engine="h_pid"),
     "C11": dict(
         text="Invariant proof over every legal history (lock, unlock under holder discipline, per-waiter cancellation from outside/inside a handler, cancel-all, executor steps) "
@@ -75,26 +75,26 @@ CLIENT_NOTE = ("Client level: the Lean theorems are about component models (asyn
 CLAIMED.update({
     "C01": dict(text="Proof (reply-matching core): in the model of detail::replies, for every history, a waiter completes ok only with the bytes of a reply dispatched with exactly its "
                      "(control code, packet id); keys stay unique; fast replies are discarded at every write. Tied by lock-step of the real replies class. The end-to-end statement "
-                     "(PUBLISH fields on the wire = arguments, final ack's rc/props = handler's) is searched by the C01 monitor on the real client.",
-                note=COMMON_NOTE + CLIENT_NOTE, technique="Lean 4 invariants over histories of the replies model + lock-step differential; trace monitor on the real client", design="§5 C01/C14", engine="h_replies,h_client"),
+                     "(PUBLISH fields on the wire = arguments, final ack's rc/props = handler's) is searched by the C01 monitor on the real client. End to end (composed_publish_success_truthful, composed_request_says_what_was_asked): a success rests on the written PUBLISH that says what the call said and, afterwards, the well-formed acknowledgement with exactly the handler's code and properties (QoS 2: failing PUBREC, or PUBLISH -> PUBREC -> PUBREL -> PUBCOMP in order). Composed model (DESIGN.md S.8): the end-to-end statement is ALSO a Lean theorem about every event list accepted by a labelled transition system of the client above the stream (Model/Trace.lean / TraceIn.lean / TraceContent.lean); the real client is tied to it by trace inclusion: every H-client transcript is replayed through the compiled model on every run (lib/trace_check.py), a refusal is a broken correspondence.",
+                note=COMMON_NOTE + CLIENT_NOTE, technique="Lean 4 invariants over histories of the replies model + lock-step differential; trace monitor on the real client + composed observer model with end-to-end theorems, tied by trace inclusion of real-client transcripts", design="§5 C01/C14", engine="h_replies,h_client"),
     "C02": dict(text="Proof (conservation core): do_write neither drops nor duplicates requests; a write failed with try_again re-queues unanswered + batch + queue; no request is ever finished with try_again; "
                      "resend_unanswered reaches every waiter once. Liveness (eventual completion once the broker stays reachable) is NOT proved: it is searched by the fault-free-suffix monitor on the real client (partial).",
                 note=COMMON_NOTE + CLIENT_NOTE + "Stream-level fault handling: the retry loop is modelled (Model/Connect.lean); read_op/write_op mapping of transport errors to try_again/aborted is searched on H-stream (every operation of the layer above ends with ok / try_again / aborted, no_recovery only for a non-retryable fault).", technique="Lean 4 conservation lemmas on sender/replies models + lock-step; healing-suffix monitor on the real client; completion-code monitor on the real autoconnect_stream", design="§5 C02", engine="h_sender,h_replies,h_client,h_stream"),
     "C03": dict(text="Proof (packet core): set_dup on a PUBLISH encoded with DUP=0 equals byte for byte the encoding with DUP=1 (only bit 3 of byte 0 changes, idempotent) and decodes under the strict spec decoder to the same message with DUP=1. "
-                     "The stored-packet state machine (only PUBREL kept after a successful PUBREC; DUP iff an earlier write succeeded) is searched by the C03 monitor on the real client, not modelled.",
-                note=COMMON_NOTE + CLIENT_NOTE, technique="Lean 4 theorems on the encoder model + differential check of control_packet::set_dup; wire-history monitor on the real client", design="§5 C03", engine="h_codec,h_client"),
+                     "The stored-packet state machine (only PUBREL kept after a successful PUBREC; DUP iff an earlier write succeeded) is searched by the C03 monitor on the real client, not modelled. End to end (composed_no_publish_after_pubrel, _retransmission_identical, _same_identifier, _first_transmission_dup_zero, _dup_after_successful_write): the stored-packet state machine is now modelled (phases per exchange, DUP rule, bytes of the first transmission). Composed model (DESIGN.md S.8): the end-to-end statement is ALSO a Lean theorem about every event list accepted by a labelled transition system of the client above the stream (Model/Trace.lean / TraceIn.lean / TraceContent.lean); the real client is tied to it by trace inclusion: every H-client transcript is replayed through the compiled model on every run (lib/trace_check.py), a refusal is a broken correspondence.",
+                note=COMMON_NOTE + CLIENT_NOTE, technique="Lean 4 theorems on the encoder model + differential check of control_packet::set_dup; wire-history monitor on the real client + composed observer model with end-to-end theorems, tied by trace inclusion of real-client transcripts", design="§5 C03", engine="h_codec,h_client"),
     "C04": dict(text="Proof (waiter core): a duplicate (PUBREL, id) waiter replaces and aborts the old one (QoS 2 at most once), an arriving PUBREL completes only its waiter, clear_pending_pubrels aborts exactly the PUBREL waiters. "
-                     "Acknowledgement chain, delivery content and order are searched by the C04 monitor on the real client (broker as QoS 0/1/2 sender). Known limits: see DESIGN §9 (F10/F11 not confirmed by the machinery).",
-                note=COMMON_NOTE + CLIENT_NOTE, technique="Lean 4 lemmas on the replies model + lock-step; inbound-exchange monitor on the real client", design="§5 C04", engine="h_replies,h_client"),
+                     "Acknowledgement chain, delivery content and order are searched by the C04 monitor on the real client (broker as QoS 0/1/2 sender). Known limits: see DESIGN §9 (F10/F11 not confirmed by the machinery). End to end (composed_inbound_acks_justified, composed_delivered_was_received, composed_delivered_in_arrival_order): acknowledgements only for what was received, never PUBCOMP before PUBREL, QoS 2 deliveries bounded by PUBRELs (a repeated PUBLISH is not delivered twice), delivered content = received content, QoS 0/1 in arrival order. Three recorded findings (F24, F25, F26: message given up when the write carrying its acknowledgement ends with try_again although the acknowledgement reached the broker). Composed model (DESIGN.md S.8): the end-to-end statement is ALSO a Lean theorem about every event list accepted by a labelled transition system of the client above the stream (Model/Trace.lean / TraceIn.lean / TraceContent.lean); the real client is tied to it by trace inclusion: every H-client transcript is replayed through the compiled model on every run (lib/trace_check.py), a refusal is a broken correspondence.",
+                note=COMMON_NOTE + CLIENT_NOTE, technique="Lean 4 lemmas on the replies model + lock-step; inbound-exchange monitor on the real client + composed observer model with end-to-end theorems, tied by trace inclusion of real-client transcripts", design="§5 C04", engine="h_replies,h_client"),
     "C05": dict(text="Proof (component core): replies.cancel_unanswered and async_sender.cancel abort each waiter/request exactly once and keep none; async_send completes nothing inline; the connection lock never completes inline. "
-                     "Exactly-once completion per API operation, cancel()/async_disconnect draining and io_context running out of work are searched by the C05 monitor on the real client.",
-                note=COMMON_NOTE + CLIENT_NOTE, technique="Lean 4 lemmas on sender/replies/mutex models + lock-step; completion-count / idle monitor on the real client", design="§5 C05", engine="h_sender,h_replies,h_client"),
+                     "Exactly-once completion per API operation, cancel()/async_disconnect draining and io_context running out of work are searched by the C05 monitor on the real client. End to end (composed_complete_at_most_once, composed_all_completed_at_quiescence, composed_no_success_after_cancel): no operation completes twice; once cancel()/async_disconnect has finished and the context has drained every initiated operation has completed; nothing completes successfully after cancel() until async_run() is called again. Stream level (H-stream): a cancelled and closed stream never opens again by itself. Composed model (DESIGN.md S.8): the end-to-end statement is ALSO a Lean theorem about every event list accepted by a labelled transition system of the client above the stream (Model/Trace.lean / TraceIn.lean / TraceContent.lean); the real client is tied to it by trace inclusion: every H-client transcript is replayed through the compiled model on every run (lib/trace_check.py), a refusal is a broken correspondence.",
+                note=COMMON_NOTE + CLIENT_NOTE, technique="Lean 4 lemmas on sender/replies/mutex models + lock-step; completion-count / idle monitor on the real client + composed observer model with end-to-end theorems, tied by trace inclusion of real-client transcripts", design="§5 C05", engine="h_sender,h_replies,h_client"),
     "C07": dict(text="Proof: token invariant of the async_sender model for every history (sends, write completions with any result, replies, reconnects storing any Receive Maximum, read-path resends, cancel): "
-                     "quota + throttled requests written-and-unanswered <= limit, no uint16 wrap, and after do_write no sendable request is left idle. Tied by lock-step of the real async_sender on a mock service (every output compared).",
-                note=COMMON_NOTE + CLIENT_NOTE + "Hypothesis of the history theorem: terminal requests are never throttled (true of every call site).", technique="Lean 4 invariant by induction over sender histories + lock-step differential; in-flight monitor on the real client", design="§5 C07", engine="h_sender,h_client"),
+                     "quota + throttled requests written-and-unanswered <= limit, no uint16 wrap, and after do_write no sendable request is left idle. Tied by lock-step of the real async_sender on a mock service (every output compared). End to end (composed_receive_maximum_respected): after every prefix the number of QoS>0 PUBLISH in flight on the connection (read off the events alone) is at most its Receive Maximum. Composed model (DESIGN.md S.8): the end-to-end statement is ALSO a Lean theorem about every event list accepted by a labelled transition system of the client above the stream (Model/Trace.lean / TraceIn.lean / TraceContent.lean); the real client is tied to it by trace inclusion: every H-client transcript is replayed through the compiled model on every run (lib/trace_check.py), a refusal is a broken correspondence.",
+                note=COMMON_NOTE + CLIENT_NOTE + "Hypothesis of the history theorem: terminal requests are never throttled (true of every call site).", technique="Lean 4 invariant by induction over sender histories + lock-step differential; in-flight monitor on the real client + composed observer model with end-to-end theorems, tied by trace inclusion of real-client transcripts", design="§5 C07", engine="h_sender,h_client"),
     "C09": dict(text="Proof (sender core): with the stream free and a terminal request queued, do_write writes exactly that request alone, ahead of everything queued; nothing is written while a write is in progress and the terminal request is next after it; a batch never mixes a terminal request with others. "
-                     "The 5 s bound, abort of the other operations and silence afterwards are searched by the C09 monitor on the real client (virtual time). Known finding F21.",
-                note=COMMON_NOTE + CLIENT_NOTE, technique="Lean 4 theorems on do_write + lock-step; disconnect monitor on the real client under virtual time", design="§5 C09", engine="h_sender,h_client"),
+                     "The 5 s bound, abort of the other operations and silence afterwards are searched by the C09 monitor on the real client (virtual time). Known finding F21. End to end (composed_no_success_after_cancel): after a finished async_disconnect no publish/subscribe/unsubscribe completes successfully until async_run(). Composed model (DESIGN.md S.8): the end-to-end statement is ALSO a Lean theorem about every event list accepted by a labelled transition system of the client above the stream (Model/Trace.lean / TraceIn.lean / TraceContent.lean); the real client is tied to it by trace inclusion: every H-client transcript is replayed through the compiled model on every run (lib/trace_check.py), a refusal is a broken correspondence.",
+                note=COMMON_NOTE + CLIENT_NOTE, technique="Lean 4 theorems on do_write + lock-step; disconnect monitor on the real client under virtual time + composed observer model with end-to-end theorems, tied by trace inclusion of real-client transcripts", design="§5 C09", engine="h_sender,h_client"),
     "C12": dict(text="Proof (timing rules): the expressions compute_read_timeout, ping compute_wait_time and negotiated_keep_alive are translated from the source on every run; theorems: read time-out = 1500*K ms, ping period = K s, K = 0 => neither, negotiated = Server Keep Alive or configured. "
                      "PINGREQ cadence and read time-outs of the real client are checked by the C12 monitor under virtual time; the timed read of the real read_op (abandon exactly at the limit, never earlier, never with keep-alive 0) by the C12 stream monitor on H-stream.",
                 note=COMMON_NOTE + CLIENT_NOTE + "read_op's parallel_group of read and timer is exercised, not modelled.", technique="translator + Lean 4 arithmetic theorems; virtual-time monitors on the real client and the real autoconnect_stream", design="§5 C12", engine="h_client,h_stream"),
@@ -102,8 +102,8 @@ CLAIMED.update({
                      "(one per lost session with a successful subscription since the last report; idempotent per connection). Tied by abstract replay: the model's report count on the inputs read off each real-client transcript equals the reports actually delivered.",
                 note=COMMON_NOTE + CLIENT_NOTE, technique="Lean 4 induction over histories of the flag machine + abstract-replay correspondence on real-client transcripts", design="§5 C13", engine="h_client"),
     "C14": dict(text="Proof: verdict model (admit each code, require exactly one admissible code per topic) - success iff count matches and all codes admissible, and then the codes are the acknowledgement's, in order; SUBACK/UNSUBACK routed by (code, id) as in C01. "
-                     "Tied by running arbitrary code lists through the real client (H-client) against the model, and by the replies lock-step.",
-                note=COMMON_NOTE + CLIENT_NOTE, technique="Lean 4 theorem on the verdict model + differential through the real client; trace monitor", design="§5 C01/C14", engine="h_client,h_replies"),
+                     "Tied by running arbitrary code lists through the real client (H-client) against the model, and by the replies lock-step. End to end (composed_subscribe_success_truthful, composed_good_ack_codes): a success rests on the written request and, afterwards, the well-formed SUBACK/UNSUBACK for its identifier whose codes are exactly the handler's, one admissible code per topic. Composed model (DESIGN.md S.8): the end-to-end statement is ALSO a Lean theorem about every event list accepted by a labelled transition system of the client above the stream (Model/Trace.lean / TraceIn.lean / TraceContent.lean); the real client is tied to it by trace inclusion: every H-client transcript is replayed through the compiled model on every run (lib/trace_check.py), a refusal is a broken correspondence.",
+                note=COMMON_NOTE + CLIENT_NOTE, technique="Lean 4 theorem on the verdict model + differential through the real client; trace monitor + composed observer model with end-to-end theorems, tied by trace inclusion of real-client transcripts", design="§5 C01/C14", engine="h_client,h_replies"),
     "C15": dict(text="Proof: model of publish/subscribe perform + validation chains (Except error bytes): an accepted request respects Maximum Packet Size, Maximum QoS, Retain Available, Topic Alias Maximum, wildcard/shared/identifier availability; documented errors in precedence order; size boundary. "
                      "Tied by requests at every capability boundary through the real client holding such a CONNACK: packet bytes or immediate error compared with the model.",
                 note=COMMON_NOTE + CLIENT_NOTE + "unsubscribe/disconnect validation is covered by the differential generator of C16/C17 only. That connect_op stores the accepted CONNACK's properties (the validators' only source) is checked on the real connect_op by the C15 stream monitor (H-stream, with and without authenticator), not proved.", technique="Lean 4 theorems on the validation model + differential through the real client; stored-capabilities monitor on the real connect_op", design="§5 C15", engine="h_client,h_stream"),
